@@ -3,7 +3,7 @@ ENGINES = [
      'kind_free_text': 'rustc_private driver dumping type-checked MIR (resolved callees, field names, evaluated constants, statics, promoted bodies) as JSON; injected with RUSTC_WORKSPACE_WRAPPER under cargo +nightly check on the current working tree'},
     {'name': 'E1 call graph + effects', 'path': 'analysis/facts.py analysis/effects.py', 'serves_properties': ['C16', 'C17'],
      'kind_free_text': 'whole-crate call graph (fn items as values and closures are edges, CHA for unresolved trait calls) and transitive effect sets'},
-    {'name': 'E2 event automata', 'path': 'analysis/cfg.py', 'serves_properties': ['C03'],
+    {'name': 'E2 event automata', 'path': 'analysis/cfg.py analysis/pkt.py', 'serves_properties': ['C03', 'C08'],
      'kind_free_text': 'forward data-flow of (automaton state, known enum variants) over the MIR CFG with per-callee summaries; keeps Ok/Err outcomes apart until the ? has branched'},
 ]
 NOTES = ('Static analysis only: no registered check executes dnssector code or calls a solver. Each ./check re-extracts MIR facts from '
@@ -44,5 +44,16 @@ CHECKS['C03'] = {
              '(d) ResponseIterator::next is next_including_opt followed by a skip that advances only under rr_type() == Type::OPT. '
              'Does NOT decide that the values returned equal an independent decode for every accepted packet, nor panic-freedom of the trusted readers (run-time invariants of accepted packets).'),
     'note': 'Structural clauses only; the behavioural equality with an RFC 1035 decode is not claimed. Trusted: rustc MIR, the rule engines.',
+}
+CHECKS['C08'] = {
+    'engine': 'E2 event automata', 'level': 'other',
+    'technique': 'path-sensitive must-pass / protocol automata on the MIR CFG with packet-buffer provenance, plus sibling cross-checks of field-write tables',
+    'design_ref': 'DESIGN.md section 4, C08',
+    'text': ('Decides, for all paths through the listed mutating operations (and fails closed on any other public mutator found by effects): (a) a path that shifts a section offset also shifts offset_edns; '
+             '(b) every successful path that replaces, resizes or overwrites name bytes of the packet buffer (provenance-tracked) stores cached = None, with maybe_compressed tracked so that recompute\'s early return is only taken where feasible; '
+             '(d) each in-place decompression site takes the reference offset from offset(), stores the translated offset with set_offset before recompute_rr and calls recompute_sections; '
+             '(e) RRIterator::recompute derives offset_next per section exactly as the iterator of that section does; (f) re-parse writers copy all five offsets from same-named fields, compare the EDNS summaries and install the parsed bytes; '
+             '(g) no operation returns Ok with the packet taken out. These are necessary conditions of "object view == fresh parse"; the equality itself over arbitrary operation sequences is a run-time relation and is NOT decided.'),
+    'note': 'Structural clauses only. Known unclaimed corner: in-place decompression under an EDNS-option cursor (D19, DESIGN.md section 5). Trusted: rustc MIR, the rule engines.',
 }
 NOT_APPLICABLE = {('C%02d' % i): PENDING for i in range(1, 19) if ('C%02d' % i) not in CHECKS}
